@@ -1081,8 +1081,10 @@ class Model:
             self._nodes, self._vars = deepcopy((self._nodes, self._vars))
 
         for node in self._nodes.values():
-            node._clear_outputs()
+            # claim the node first: if it belongs to another model, this raises and the
+            # node (and with it the other model) must be left as it is
             node._set_model(self)
+            node._clear_outputs()
 
         for node in self._nodes.values():
             for _input in node.all_input_nodes():
